@@ -134,14 +134,14 @@ func Start(bin string, dir string, cfg Cfg) (*Agent, error) {
 			"ue_ip_pool":         cfg.UEPool,
 			"peers":              cfg.Peers,
 		},
-		"enable_end_marker":   cfg.EndMarker,
-		"enable_notify_bess":  cfg.NotifyBess,
-		"notify_sockaddr":     filepath.Join(dir, "notify.sock"),
-		"endmarker_sockaddr":  filepath.Join(dir, "endmarker.sock"),
-		"enable_hbTimer":      cfg.HBTimer,
-		"measure_flow":        false,
-		"enable_p4rt":         cfg.Datapath == "up4",
-		"qci_qos_config":      cfg.QciQos,
+		"enable_end_marker":       cfg.EndMarker,
+		"enable_notify_bess":      cfg.NotifyBess,
+		"notify_sockaddr":         filepath.Join(dir, "notify.sock"),
+		"endmarker_sockaddr":      filepath.Join(dir, "endmarker.sock"),
+		"enable_hbTimer":          cfg.HBTimer,
+		"measure_flow":            false,
+		"enable_p4rt":             cfg.Datapath == "up4",
+		"qci_qos_config":          cfg.QciQos,
 		"slice_rate_limit_config": map[string]uint64{"n6_bps": cfg.SliceN6Bps, "n6_burst_bytes": cfg.SliceN6Burst, "n3_bps": cfg.SliceN3Bps, "n3_burst_bytes": cfg.SliceN3Burst},
 	}
 	if cfg.Peers == nil {
@@ -324,11 +324,17 @@ func (a *Agent) ctlSend(s string) error {
 
 // Gate arms (on=true) or disarms a blocking gate at the named scheduling point ("*" = all).
 func (a *Agent) Gate(name string, on bool) error {
+	cmd := "UNGATE " + name
 	if on {
-		return a.ctlSend("GATE " + name)
+		cmd = "GATE " + name
 	}
 
-	return a.ctlSend("UNGATE " + name)
+	if err := a.ctlSend(cmd); err != nil {
+		return err
+	}
+
+	// the gate is in force when this returns (a signal sent next must not overtake it)
+	return a.Set("PING")
 }
 
 // Report switches the reporting of every scheduling point on or off.
